@@ -457,14 +457,22 @@ impl Rewriter {
       let generic_class_name = original_name.type_name.type_name;
       let fn_name = original_name.fn_name;
       let replacement_class =
-        generics_replacement_map.get(&generic_class_name).unwrap().as_id().unwrap();
-      let rewritten_fn_name = mir::FunctionName { type_name: *replacement_class, fn_name };
-      self.rewrite_non_generic_fn_name(
-        heap,
-        rewritten_fn_name,
-        function_type,
-        function_type_arguments,
-      )
+        *generics_replacement_map.get(&generic_class_name).unwrap().as_id().unwrap();
+      // The replacement can itself be an instantiated generic class (e.g. `Box<int>`), whose
+      // methods are keyed by the unspecialized class name and take the class type arguments first.
+      let (unspecialized_class, class_type_arguments) =
+        self.symbol_table.split_type_name_suffix(replacement_class);
+      let unspecialized_fn_name = mir::FunctionName { type_name: unspecialized_class, fn_name };
+      if self.original_functions.contains_key(&unspecialized_fn_name) {
+        self.rewrite_non_generic_fn_name(
+          heap,
+          unspecialized_fn_name,
+          function_type,
+          class_type_arguments.into_iter().chain(function_type_arguments).collect(),
+        )
+      } else {
+        mir::FunctionName { type_name: replacement_class, fn_name }
+      }
     }
   }
 
